@@ -334,6 +334,8 @@ inductive Op (V : Type) where
   /-- `system.load_extension(package)` where the package's `parameters/` directory holds `ext`: the
       tree OBJECT is changed in place -/
   | extend (s : Nat) (ext : List (String × PNode V))
+  /-- `system.clone()`: a new system (same baseline) whose tree is `self.parameters.clone()`, a new object -/
+  | cloneSys (s : Nat)
 
 /-- a modifier that reads nothing -/
 def pureMod (f : PNode V → Except String (PNode V)) : PNode V → ModProg V := fun t => .ret (f t)
@@ -399,6 +401,16 @@ def step (w : World V) : Op V → World V × Obs V
           | some (.param _) => ({ w1 with memo := [] }, .failed "AttributeError")
           | some (.scale _ _) => ({ w1 with memo := [] }, .failed "AttributeError")
           | none => ({ w1 with memo := [] }, .failed "dangling reference")
+  | .cloneSys s =>
+    match w.systems[s]? with
+    | none => (w, .failed "no such system")
+    | some r =>
+      match w.treeOf s with
+      | none => (w, .failed "AttributeError: None")      -- `self.parameters.clone()` on `None`
+      | some t =>
+        -- the memo is keyed by the system OBJECT: nothing is memoised for the clone, nothing is lost
+        ({ w with heap := w.heap ++ [t], systems := w.systems ++ [⟨some w.heap.length, r.baseline⟩] },
+          .created w.systems.length)
 
 /-- NOT the code's order (kept to show that the order matters): the memo is emptied BEFORE the
     modifier runs, and not after the tree is installed. -/
@@ -432,6 +444,7 @@ def Op.target : Op V → Option Nat
   | .readFormula .. => none
   | .read _ => none
   | .newReform _ => none
+  | .cloneSys _ => none
 
 /-- Does the operation, run in state `w`, leave the tree of system `b` alone? A replacement of another
     system's tree does; an extension does when it is loaded on another system that is a reform (it gets its
@@ -449,6 +462,7 @@ def Op.spares (w : World V) (b : Nat) : Op V → Bool
   | .readFormula .. => true
   | .read _ => true
   | .newReform _ => true
+  | .cloneSys _ => true
 
 /-- every operation of the history, in the state it runs in, leaves the tree of `b` alone -/
 def Spared (b : Nat) : World V → List (Op V) → Prop
@@ -465,6 +479,7 @@ def Op.inPlace : Op V → Bool
   | .readFormula .. => false
   | .read _ => false
   | .newReform _ => false
+  | .cloneSys _ => false
 
 /-! ## Vectorial nodes -/
 
@@ -694,30 +709,7 @@ def leafRows : List (VRow W) → Bool
 inductive VStep where
   | field (k : String)
   | index (ks : List String)
-
-def vstep (rows : List (VRow W)) : VStep → Except String (List (VRow W))
-  | .field k => if leafRows rows then .error "AttributeError" else vfield rows k
-  | .index ks => if leafRows rows then .error "IndexError" else vindex rows ks
-
-def vsteps (rows : List (VRow W)) : List VStep → Except String (List (VRow W))
-  | [] => .ok rows
-  | st :: r =>
-    match vstep rows st with
-    | .ok rows' => vsteps rows' r
-    | .error e => .error e
-
-/-- the tracing wrapper around a vectorial node: a record array is wrapped again, a float array is
-    recorded under the NODE's name and returned bare -/
-def tracedVec (d : Int) (name : String) (rows : List (VRow W)) (steps : List VStep)
-    (log : List (LogEntry (List (VRow W)))) :
-    Except String (List (VRow W)) × List (LogEntry (List (VRow W))) :=
-  if leafRows rows then (vsteps rows steps, log ++ [⟨name, d, rows⟩])
-  else match steps with
-    | [] => (.ok rows, log)
-    | st :: r =>
-      match vstep rows st with
-      | .ok rows' => tracedVec d name rows' r log
-      | .error e => (.error e, log)
+  | dates (ds : List Int)       -- a `datetime64` vector (chained as-of-date indexing)
 
 /-! ## As-of-date nodes -/
 
@@ -779,6 +771,73 @@ def asofIndex : VRow W → List Int → Except String (List (VRow W))
     | none => .error "ValueError: datetime"
     | some [] => .error "0-d result"                   -- `sum([])` is the integer 0: a scalar comes out
     | some (a :: ads) => asofPick (fs.map (·.2)) (a :: ads) dates
+
+/-- one element of a date index: in the row `r`, the field number `#{after_ dates ≤ t}` -/
+def asofOne : VRow W → Int → Except String (VRow W)
+  | .leaf _, _ => .error "TypeError"
+  | .record fs, t =>
+    match afterDates (fs.map (·.1)) with
+    | none => .error "ValueError: datetime"
+    | some ads =>
+      match (fs.map (·.2))[countLE ads t]? with
+      | some x => .ok x
+      | none => .error "IndexError"
+
+def asofPairs : List (VRow W × Int) → Except String (List (VRow W))
+  | [] => .ok []
+  | (r, t) :: ps =>
+    match asofOne r t, asofPairs ps with
+    | .ok x, .ok xs => .ok (x :: xs)
+    | .error e, _ => .error e
+    | _, .error e => .error e
+
+/-- `VectorialAsofDateParameterNodeAtInstant.__getitem__(dates)` on a vector of SEVERAL rows (what a previous
+    date index returned; the F-C07d repair): `values[conditions, rows]` — row `i` with date `i`, numpy
+    broadcasting a single row or a single date against the other -/
+def asofRows (rows : List (VRow W)) (ds : List Int) : Except String (List (VRow W)) :=
+  match broadcast rows ds with
+  | none => .error "IndexError: shape mismatch"
+  | some ps => asofPairs ps
+
+/-- One step on a vectorial node. `cls = false`: a `VectorialParameterNodeAtInstant` (what a key vector
+    returns); `cls = true`: a `VectorialAsofDateParameterNodeAtInstant` (what a date vector returns).
+    Attribute access is the same for both (`__getattr__`, the F-C07b repair). A key vector on the as-of
+    class fails its `assert`; a date vector on the plain class is stringified and names no field. A date
+    vector on the as-of class: the one-row case is `asofIndex` (the vector `build_from_node` makes), several
+    rows are indexed row by row (`asofRows`). -/
+def vstep (cls : Bool) (rows : List (VRow W)) : VStep → Except String (List (VRow W))
+  | .field k => if leafRows rows then .error "AttributeError" else vfield rows k
+  | .index ks =>
+    if leafRows rows then .error "IndexError"
+    else if cls then .error "AssertionError" else vindex rows ks
+  | .dates ds =>
+    if leafRows rows then .error "IndexError"
+    else if cls then
+      match rows with
+      | [r0] => asofIndex r0 ds
+      | [] => .error "IndexError"
+      | r0 :: r1 :: rest => asofRows (r0 :: r1 :: rest) ds
+    else .error "ValueError: no field"
+
+def vsteps (cls : Bool) (rows : List (VRow W)) : List VStep → Except String (List (VRow W))
+  | [] => .ok rows
+  | st :: r =>
+    match vstep cls rows st with
+    | .ok rows' => vsteps cls rows' r
+    | .error e => .error e
+
+/-- the tracing wrapper around a vectorial node: a record array is wrapped again, a float array is
+    recorded under the NODE's name and returned bare -/
+def tracedVec (cls : Bool) (d : Int) (name : String) (rows : List (VRow W)) (steps : List VStep)
+    (log : List (LogEntry (List (VRow W)))) :
+    Except String (List (VRow W)) × List (LogEntry (List (VRow W))) :=
+  if leafRows rows then (vsteps cls rows steps, log ++ [⟨name, d, rows⟩])
+  else match steps with
+    | [] => (.ok rows, log)
+    | st :: r =>
+      match vstep cls rows st with
+      | .ok rows' => tracedVec cls d name rows' r log
+      | .error e => (.error e, log)
 
 /-- `node_at_instant[dates]` for a `datetime64` vector -/
 def asof (num : V → Option W) (s : Snap V) (dates : List Int) : Except String (List (VRow W)) :=
